@@ -51,10 +51,42 @@ func popclass(v uint64) string {
 	return fmt.Sprintf("pop=%d/hi=%d", n, hi)
 }
 
+// priorPCR: prior contents related to the value about to be written: its own encoding, the encoding of a
+// neighbouring value, and (where there is one) the non-canonical spelling that decodes to the same number
+// (base-1 with an extension of 300 or more), each with the reserved bits set or cleared.
+func priorPCR(kind int, v uint64, r *gen.Rand) []byte {
+	b := make([]byte, 16)
+	r.Fill(b)
+	var e [6]byte
+	switch kind {
+	case 3:
+		e = ref.EncPCR(v)
+	case 4:
+		e = ref.EncPCR((v + uint64(r.PickInt([]int{1, 300, 299, 27000000}))) % ref.PCRMax)
+	default:
+		base, ext := v/300, v%300
+		if base == 0 || ext+300 > 511 {
+			e = ref.EncPCR(v)
+			e[4] &^= 0x7e
+		} else {
+			base, ext = base-1, ext+300
+			e = [6]byte{byte(base >> 25), byte(base >> 17), byte(base >> 9), byte(base >> 1), byte(base<<7) | 0x7e | byte(ext>>8), byte(ext)}
+		}
+	}
+	if r.Chance(3) {
+		e[4] &^= byte(r.Intn(64)) << 1
+	}
+	copy(b[5:11], e[:])
+	return b
+}
+
 func pcr(c *mon.Ctx, v uint64, r *gen.Rand, class string) {
 	want := ref.EncPCR(v)
-	for kind := 0; kind < 3; kind++ {
+	for kind := 0; kind < 6; kind++ {
 		buf := prior(kind, r)
+		if kind >= 3 {
+			buf = priorPCR(kind, v, r)
+		}
 		orig := append([]byte{}, buf...)
 		gots.InsertPCR(buf[5:11:16], v)
 		c.Eval(1)
@@ -83,8 +115,19 @@ func pcr(c *mon.Ctx, v uint64, r *gen.Rand, class string) {
 
 func pts(c *mon.Ctx, v uint64, r *gen.Rand, class string) {
 	want := ref.EncPTS(2, v)
-	for kind := 0; kind < 3; kind++ {
+	for kind := 0; kind < 5; kind++ {
 		buf := prior(kind, r)
+		if kind >= 3 {
+			// prior contents that already spell this value (or its neighbour), marker bits set or cleared
+			r.Fill(buf)
+			e := ref.EncPTS(byte(r.PickInt([]int{2, 3, 1, 0})), (v+uint64(kind-3))&(1<<33-1))
+			if r.Bool() {
+				e[0] &^= 1
+				e[2] &^= 1
+				e[4] &^= 1
+			}
+			copy(buf[5:10], e[:])
+		}
 		orig := append([]byte{}, buf...)
 		gots.InsertPTS(buf[5:10:16], v)
 		c.Eval(1)
